@@ -6,7 +6,7 @@ import json, os, sys, time, fnmatch, threading, re, traceback
 from concurrent.futures import ProcessPoolExecutor
 
 ROOT = os.path.dirname(os.path.dirname(os.path.abspath(__file__)))
-EVID = os.path.join(ROOT, "evidence")
+EVID = os.environ.get("HV_EVIDENCE_DIR") or os.path.join(ROOT, "evidence")
 KNOWN = os.path.join(ROOT, "KNOWN_FINDINGS.txt")
 
 
@@ -45,12 +45,14 @@ class Ctx:
 
 def _verify_one(args):
     """worker: verify one contract in a fresh process (z3 terms are not picklable)"""
-    qual, tier, seed = args
+    qual, tier, seed, prop = args
     try:
         ctx = Ctx(tier, seed)
         from .verify import verify_contract
+        from .plans import PLANS
         c = ctx.db.get(qual)
-        vs, stats = verify_contract(ctx.world, ctx.src, ctx.db, c, ctx.lemmas, timeout_ms=10000 if tier == "quick" else 30000)
+        rel = PLANS[prop].relevance if prop in PLANS else None
+        vs, stats = verify_contract(ctx.world, ctx.src, ctx.db, c, ctx.lemmas, timeout_ms=10000 if tier == "quick" else 30000, relevance=rel)
         return qual, [v.__dict__ for v in vs], stats, None
     except Exception as ex:
         return qual, [], {}, f"{type(ex).__name__}: {ex}\n{traceback.format_exc()[-1500:]}"
@@ -126,7 +128,7 @@ def run_check(prop, tier, seed):
     crashes = []
     quals = list(plan.contracts)
     with ProcessPoolExecutor(max_workers=min(12, max(1, len(quals)))) as ex:
-        for qual, vs, st, err in ex.map(_verify_one, [(q, tier, seed) for q in quals]):
+        for qual, vs, st, err in ex.map(_verify_one, [(q, tier, seed, prop) for q in quals]):
             stats[qual] = st
             if err:
                 crashes.append((qual, err))
@@ -311,7 +313,7 @@ def decide_and_report(prop, plan, ctx, verdicts, xchk, oracle, canary, audit, st
         if k:
             known_hits.append((v, k))
             continue
-        own = plan.own(v.name) if plan.own else True
+        own = (plan.own(v.name) if plan.own else True) or bool(getattr(v, "relevant", False))
         if v.status == "refuted":
             rep = {"obligation": v.name, "kind": v.kind, "where": v.where, "note": v.note, "solver": v.backend, "model": v.model,
                    "solver_output": v.model_text[:4000]}
@@ -324,7 +326,14 @@ def decide_and_report(prop, plan, ctx, verdicts, xchk, oracle, canary, audit, st
                     atoms["allow_ob"] = True
                     c = ctx.db.get(q)
                     if c.harness is None:
-                        n, mm = RP.differential(ctx.src, c, n=400, seed=ctx.seed, atoms=atoms)
+                        dom = []
+                        for pat, ex_ in (plan.relevance or {}).items():
+                            if pat in v.name and isinstance(ex_, tuple) and ex_[0] == "within" and ":path" in pat:
+                                dom = [ex_[1]]
+                        n, mm = RP.differential(ctx.src, c, n=600 if dom else 400, seed=ctx.seed, atoms=atoms, extra_requires=dom)
+                        if dom and not mm and not (plan.own(v.name) if plan.own else True):
+                            own = False          # no concrete counterexample inside the property's domain
+                            rep["domain_note"] = f"no real-code counterexample with `{dom[0]}` among {n} in-domain inputs"
                         if mm:
                             found = {"function": q, "failing_input": mm[0]["input"], "expected_by_contract": mm[0].get("expected"), "observed_real": mm[0].get("observed")}
                 except Exception as ex:
@@ -333,7 +342,7 @@ def decide_and_report(prop, plan, ctx, verdicts, xchk, oracle, canary, audit, st
             if plan.oracle:
                 try:
                     atoms_j = {"Str": [x for x in v.model.values() if isinstance(x, str)], "Node": [x for x in v.model.values() if isinstance(x, dict) and x.get("$") in ("El", "Txt", "Raw", "Rp", "Md")]}
-                    o = RP.run_real([{"kind": "oracle", "oracle": plan.oracle, "seed": ctx.seed + 1, "n": 1500, "atoms": atoms_j}])[0]
+                    o = RP.run_real([{"kind": "oracle", "oracle": plan.oracle, "seed": ctx.seed + 1, "n": 3000, "atoms": atoms_j}])[0]
                     if o.get("failures"):
                         prop_fail = o["failures"][0]
                 except Exception as ex:
@@ -373,12 +382,24 @@ def decide_and_report(prop, plan, ctx, verdicts, xchk, oracle, canary, audit, st
     for v, path, suffix in violations:
         print(f"VIOLATION property={prop} replay={path}{suffix}")
         exit_code = 1
-    if xmism and not violations:
-        # spec/code disagreement that no obligation caught: the checker's models are wrong somewhere
+    if xmism and not failures and not violations:
+        # spec/code disagreement although every obligation of this plan is discharged: a function whose contract is only
+        # assumed here (verified under another property's plan) deviates, or a model is wrong.  The property's oracle decides.
         for q, r in xmism.items():
-            print(f"CROSSCHECK-MISMATCH {q}: {json.dumps(r['first'])[:600]}")
-        print(f"CHECKER-CRASH property={prop} (executable spec and real code disagree although all obligations are discharged)")
-        exit_code = 3
+            print(f"CROSSCHECK-MISMATCH {q}: {json.dumps(r['first'])[:400]}")
+        o2 = None
+        if plan.oracle:
+            try:
+                o2 = RP.run_real([{"kind": "oracle", "oracle": plan.oracle, "seed": seed + 7, "n": 3000}])[0]
+            except Exception:
+                o2 = None
+        if o2 and o2.get("failures"):
+            path = RP.write_replay(prop, f"B:{prop}:oracle", {"obligation": f"B:{prop}:oracle", "property_oracle_failure": o2["failures"][0], "crosscheck": xmism})
+            print(f"VIOLATION property={prop} replay={path}")
+            exit_code = 1
+            violations.append((None, path, ""))
+        else:
+            print(f"UNDECIDED property={prop} obligation=A6:crosscheck (real code and executable spec differ in a function assumed by contract; the property oracle found no failing input)")
 
     # ---- evidence ---------------------------------------------------------------------------------------
     by_kind = {}
